@@ -176,8 +176,10 @@ class Strings(Contract):
                 y = Fxp(list(texts), s, n, f)
                 chk('array_parse_value', [int(v) for v in y.val] == a, [a])
                 t2 = [list(r) for r in got]
+                t2_keep = [list(r) for r in t2]
                 y = Fxp(t2, s, n, f)
                 chk('array2d_parse_value', [int(v) for v in y.val.ravel()] == a, [a])
+                chk('input_unchanged', t2 == t2_keep and all(isinstance(t, str) for r in t2 for t in r), ['nested list of strings', t2])
         return {'bad': bad, 'cases': cases, 'ncodes': len(codes)}
 
     def post(self, cfg, inp, obs):
